@@ -60,6 +60,12 @@ def potential_coeffs(kind, param, nq, qdeg, ncr, rdeg, Tr, rpts, seed):
         a[1], a[2] = param, -param
         a = a + a[:qdeg]
         return [[a[i]] * nbr for i in range(nq + qdeg)]
+    if kind == 'strong':
+        # large theta variation growing with r: the implicit iteration contracts slowly (more than a hundred sweeps to 1e-13)
+        import math
+        a = [Fr(math.sin(2 * math.pi * i / nq)).limit_denominator(1000) * param for i in range(nq)]
+        a = a + a[:qdeg]
+        return [[a[i] * (1 + Fr(3 * j, 10)) for j in range(nbr)] for i in range(nq + qdeg)]
     if kind == 'wave':
         a = [Fr(rnd.randint(-6, 6), 4) * param for _ in range(nq)]
         a = a + a[:qdeg]
@@ -183,6 +189,19 @@ def work(item):
                 out[(i, j)] = ((q - (dr0 + drk) * mf / 2) % TWO_PI, r + (dq0 + dqk) * mf / 2)
         return out
 
+    if pot == 'strong':
+        # float-only item: the iteration needs far more sweeps than an exact run can afford; the real float step (in a child, under
+        # the CPU budget) is compared with an independent float implementation of the stated iteration run to its tolerance
+        res['obligations'] += 1
+        prob = H.in_child(float_replay, m, adv, item)
+        if prob:
+            res['violations'].append(('poloidal:%s:float' % scheme, prob, dict(kind='poloidal', item=[str(x) for x in item[:10]], concrete=prob)))
+        else:
+            res['discharged'] += 1
+            res['nontrivial'].append('pol-float|%r' % (item[:10],))
+        res['wall'] = round(time.time() - t0, 2)
+        res['canary'] = None
+        return res
     stuck = None
     if scheme.startswith('impl'):
         # "the implicit iteration terminates": the exact run below would never come back either
@@ -262,6 +281,7 @@ def work(item):
     return res
 
 
+REF_SWEEPS = [0]
 FLOAT_STEP_CPU_S = 120      # a float step on these grids takes milliseconds
 NONTERMINATION = 'the float step does not return within %d s of CPU time' % FLOAT_STEP_CPU_S
 
@@ -323,7 +343,7 @@ def float_replay(m, adv, item, termination_only=False):
                 for j, r in enumerate(rpf):
                     d0[(i, j)] = (phi.eval(q, r, 0, 1) / r, phi.eval(q, r, 1, 0) / r)
                     cur[(i, j)] = (q - d0[(i, j)][0] * mf, r + d0[(i, j)][1] * mf)
-            for it in range(200):
+            for it in range(20000):
                 norm = 0.0
                 nxt = {}
                 for (i, j), (q1, r1) in cur.items():
@@ -344,6 +364,7 @@ def float_replay(m, adv, item, termination_only=False):
                 if norm <= tolf:
                     break
             impl_feet = cur
+            REF_SWEEPS[0] = it + 1
         for i, q in enumerate(qpf):
             for j, r in enumerate(rpf):
                 if impl_feet is not None:
@@ -421,6 +442,9 @@ def main():
     # iteration to stop after its first passes (the iterates' size multiplies with every pass)
     items.append(('nu', 4, 3, 5, 2, 'generic', Fr(1, 2), Fr(1, 8), 'impl@1/2', True, None))
     items.append(('nu', 2, 3, 4, 2, 'generic', Fr(1, 2), Fr(-1, 8), 'impl@1/2', False, None))
+    # float-only: slowly contracting implicit iteration (about 250 sweeps to reach 1e-13), both signs of dt
+    items.append(('cu', 3, 3, 8, 6, 'strong', Fr(3), Fr(1), 'impl@1/10000000000000', True, None))
+    items.append(('cu', 3, 3, 8, 6, 'strong', Fr(3), Fr(-1), 'impl@1/10000000000000', False, None))
     # history: earlier steps on the same object (work buffers are reused); the measured step has feet/predictors outside the domain
     items.append(('cu', 3, 3, 4, 2, 'wave', Fr(2), Fr(2), 'expl', True, None, (Fr(1),)))
     items.append(('cu', 3, 3, 4, 2, 'wave', Fr(2), Fr(-2), 'expl', False, None, (Fr(-1, 2), Fr(1))))
